@@ -193,7 +193,15 @@ def run_once(case, rewrite):
         newv = np.array([rewrite["val"]]).astype(dt)[0]
         i = int(np.searchsorted(np.cumsum(lens), pos, side="right"))
         j = pos - (int(np.cumsum(lens)[i - 1]) if i else 0)
-        if rewrite["how"] == "cell":
+        if rewrite["how"] in ("ravel", "rowview") and recv != "readonly":
+            # a write through a view the array hands out (its flat view / one of its rows), not through ra[...] = v
+            if rewrite["how"] == "ravel":
+                ra.ravel()[pos] = newv
+            else:
+                ra[i][j] = newv
+            flat = flat.copy()
+            flat[pos] = newv
+        elif rewrite["how"] in ("cell", "ravel", "rowview"):
             ra[i, j] = newv
             flat = flat.copy()
             flat[pos] = newv
@@ -328,7 +336,7 @@ def gen_case(rng, lens, dtype, vclass, op=None, recv="fresh"):
     nn = max(1, nn)
     rewrite = None
     if rng.random() < 0.3 and sum(lens) and vclass in ("small", "dups"):
-        rewrite = {"how": rng.choice(["cell", "cell", "row", "fill"]), "pos": rng.randrange(10 ** 6), "val": rng.choice([0, 1, 3, 7])}
+        rewrite = {"how": rng.choice(["cell", "cell", "row", "fill", "ravel", "rowview"]), "pos": rng.randrange(10 ** 6), "val": rng.choice([0, 1, 3, 7])}
     c = mk_case(lens, dtype, _vals(rng, dtype, sum(lens), vclass, op), op, nn, vclass, recv, rewrite)
     if op == "diff":
         c["ntype"] = rng.choice(["int", "int", "int64", "uint8", "uint64", "int8", "0d"])
